@@ -97,3 +97,93 @@ def literal_number(node):
         v = literal_number(node.operand)
         return -v if v is not None else None
     return None
+
+
+_FXC = {}
+
+
+def get_fx(ix):
+    from .fx import FX
+    if id(ix) not in _FXC:
+        _FXC[id(ix)] = FX(ix)
+    return _FXC[id(ix)]
+
+
+def purity_obligations(rep, ix, funcs, rule, why, internal_out_params=()):
+    """Necessary condition shared by the formula-level properties: the functions whose normal forms are
+    compared must be functions of their arguments only - they must not modify an argument (the same array is
+    reused across the identities / across repeated calls) nor keep state between calls."""
+    from .fx import MEMO_DECORATORS
+    fx = get_fx(ix)
+    for f in funcs:
+        s = fx.summary(f)
+        bad = False
+        for p, evs in sorted(s.mutates.items()):
+            ev = evs[0]
+            if ev.kind != "data":
+                continue
+            if (f.fq, p) in internal_out_params:
+                continue        # non-public helper writing into a buffer its (checked) callers allocate: an out-parameter by design
+            bad = True
+            rep.violation(rule, "%s(%s): %s" % (f.fq, p, ev.stmt_text()[:90]),
+                          "argument `%s` may be modified in place (%s): %s" % (p, ev.how, why), ev.where())
+        for g in sorted(set(list(s.global_mut) + list(s.global_rebind))):
+            bad = True
+            rep.violation(rule, "%s: module state %s" % (f.fq, g), "function writes module-level state `%s`: results depend on the call history" % g, f.where())
+        for d in f.node.decorator_list:
+            txt = norm_text(d)
+            if any(k in txt.split("(")[0].split(".")[-1] for k in MEMO_DECORATORS):
+                bad = True
+                rep.violation(rule, "%s: @%s" % (f.fq, txt), "memoised: results depend on the call history", f.where(d))
+        for p, dflt in f.defaults.items():
+            if isinstance(dflt, (ast.List, ast.Dict, ast.Set)) and _mutable_default_used(f, p):
+                bad = True
+                rep.violation(rule, "%s(%s=%s): mutable default used as a store" % (f.fq, p, norm_text(dflt)),
+                              "a mutable default argument is written to: it persists between calls (hidden state)", f.where())
+        if not bad:
+            rep.ok(rule, f.fq, "no argument mutation, no hidden state", False)
+
+
+def _mutable_default_used(f, p):
+    for n in ast.walk(f.node):
+        if isinstance(n, (ast.Assign, ast.AugAssign)):
+            tg = n.targets if isinstance(n, ast.Assign) else [n.target]
+            for t in tg:
+                if isinstance(t, ast.Subscript) and isinstance(t.value, ast.Name) and t.value.id == p:
+                    return True
+        if isinstance(n, ast.Call) and isinstance(n.func, ast.Attribute) and isinstance(n.func.value, ast.Name) and \
+                n.func.value.id == p and n.func.attr in ("append", "update", "setdefault", "add", "extend", "pop", "clear", "__setitem__"):
+            return True
+    return False
+
+
+def reachable_functions(ix, roots):
+    fx = get_fx(ix)
+    seen, todo = [], list(roots)
+    while todo:
+        g = todo.pop()
+        if g in seen:
+            continue
+        seen.append(g)
+        for n, b in fx.summary(g).calls:
+            if b is not None and b.kind == "func" and b.target not in seen:
+                todo.append(b.target)
+    return seen
+
+
+def merged_paths(interp, f, args, **kw):
+    """single value if all returning paths agree, else a `paths` atom (a fully understood disagreement)"""
+    vals = []
+    for c, v in interp.returns(f, list(args), **kw):
+        if not any(vkey(v) == vkey(x) for x in vals):
+            vals.append(v)
+    if not vals:
+        raise AnalysisError("%s: no returning path" % f.fq)
+    if len(vals) == 1:
+        return vals[0]
+    if all(isinstance(v, Rat) for v in vals):
+        return Rat.atom(Fn("paths", tuple(vals)))
+    if all(isinstance(v, tuple) and len(v) == len(vals[0]) for v in vals):
+        return tuple(Rat.atom(Fn("paths", tuple(v[i] for v in vals))) if len(set(vkey(v[i]) for v in vals)) > 1 else vals[0][i]
+                     for i in range(len(vals[0])))
+    raise AnalysisError("%s: paths return values of different kinds" % f.fq)
